@@ -164,6 +164,12 @@ func (o *OptSpec) build() dns.RR {
 			opt.Option = append(opt.Option, &dns.EDNS0_COOKIE{Code: dns.EDNS0COOKIE, Cookie: e.Data})
 		case "subnet":
 			opt.Option = append(opt.Option, &dns.EDNS0_SUBNET{Code: dns.EDNS0SUBNET, Family: uint16(e.Code), SourceNetmask: e.A, SourceScope: e.B, Address: net.ParseIP(e.Addr)})
+		case "rawsubnet":
+			// hand-encoded RFC 7871 option (lets the generator produce families, masks and address
+			// lengths the library refuses to pack): FAMILY(2) SOURCE(1) SCOPE(1) ADDRESS(n)
+			data := []byte{byte(e.Code >> 8), byte(e.Code), e.A, e.B}
+			data = append(data, unhex(e.Data)...)
+			opt.Option = append(opt.Option, &dns.EDNS0_LOCAL{Code: dns.EDNS0SUBNET, Data: data})
 		case "padding":
 			opt.Option = append(opt.Option, &dns.EDNS0_PADDING{Padding: unhex(e.Data)})
 		case "keepalive":
